@@ -1,4 +1,5 @@
 import Pbc.Lemmas.Sort
+import Pbc.Lemmas.Ranges
 import Pbc.Props.C14
 /-
   C13 — the emitted descriptors mirror the .proto, for EVERY message / enum the generator accepts.
@@ -148,5 +149,206 @@ theorem field_by_name (m : PMsg) (hd : (m.fields.map (fun f => bytesOfString (na
     exact ⟨f, by rw [← he.2]; simpa using this.2, he.1⟩
   · rintro ⟨f, hf, hk⟩
     exact ⟨(f, idx), mem_enumFrom.2 ⟨Nat.zero_le _, by simpa using hf⟩, by simp [hk]⟩
+
+/-! ### lookups by number over the emitted range tables -/
+
+theorem sortByNumber_strict (l : List PField) (hd : (l.map (·.number)).Nodup) :
+    (sortByNumber l).Pairwise (fun a b => a.number < b.number) := by
+  have hs := isort_pairwise (lt := fun (a b : PField) => decide (a.number < b.number))
+    (le := fun a b => a.number ≤ b.number)
+    (fun a b c h1 h2 => Nat.le_trans h1 h2)
+    (fun a b h => by simp at h; omega) (fun a b h => by simp at h; omega) l
+  have hn : ((sortByNumber l).map (·.number)).Nodup := ((isort_perm _ l).map (·.number)).nodup_iff.2 hd
+  have hne : (sortByNumber l).Pairwise (fun a b => a.number ≠ b.number) := by
+    simpa [Nodup, pairwise_map] using hn
+  exact (hs.and hne).imp (by intro a b h; omega)
+
+/-- C13 + C14 (i) for generated message descriptors: for EVERY integer key, `int_range_lookup` over the emitted
+    `number_ranges` returns position k of the emitted field table iff the field there has that number; every other
+    key (0, negative, one past a run, INT32 extremes) is reported as not found. -/
+theorem field_by_number (m : PMsg) (hd : (m.fields.map (·.number)).Nodup) (v : Int) (k : Nat) :
+    rangeLookup (genRanges m) v = some k ↔ ∃ f, (sortByNumber m.fields)[k]? = some f ∧ (f.number : Int) = v := by
+  have hs : ((sortByNumber m.fields).map (fun f => (f.number : Int))).Pairwise (· < ·) := by
+    rw [pairwise_map]
+    exact (sortByNumber_strict m.fields hd).imp (by intro a b h; exact Int.ofNat_lt.2 h)
+  unfold genRanges
+  rw [Pbc.Lemmas.Ranges.rangeLookup_mkRanges _ hs]
+  simp only [getElem?_map, Option.map_eq_some_iff]
+
+/-! ### enums: unique numbers ascending, lookups by number -/
+
+theorem dedup_sub : ∀ (l : List (String × Int)) (a : String × Int), a ∈ dedupByValue l → a ∈ l := by
+  intro l
+  fun_induction dedupByValue l with
+  | case1 => intro a h; simp at h
+  | case2 x => intro a h; exact h
+  | case3 x y rest heq ih =>
+    intro a h
+    rcases mem_cons.1 (ih a h) with rfl | h'
+    · exact mem_cons_self ..
+    · exact mem_cons_of_mem _ (mem_cons_of_mem _ h')
+  | case4 x y rest hne ih =>
+    intro a h
+    rcases mem_cons.1 h with rfl | h'
+    · exact mem_cons_self ..
+    · exact mem_cons_of_mem _ (ih a h')
+
+theorem dedup_numbers : ∀ (l : List (String × Int)) (v : Int),
+    v ∈ (dedupByValue l).map (·.2) ↔ v ∈ l.map (·.2) := by
+  intro l
+  fun_induction dedupByValue l with
+  | case1 => intro v; simp
+  | case2 x => intro v; simp
+  | case3 x y rest heq ih =>
+    intro v
+    rw [ih v]
+    simp only [map_cons, mem_cons]
+    constructor
+    · rintro (h | h)
+      · exact Or.inl h
+      · exact Or.inr (Or.inr h)
+    · rintro (h | h | h)
+      · exact Or.inl h
+      · exact Or.inl (h.trans heq.symm)
+      · exact Or.inr h
+  | case4 x y rest hne ih =>
+    intro v
+    simp only [map_cons, mem_cons] at ih ⊢
+    rw [ih v]
+
+theorem dedup_strict : ∀ (l : List (String × Int)), l.Pairwise (fun a b => a.2 ≤ b.2) →
+    (dedupByValue l).Pairwise (fun a b => a.2 < b.2) := by
+  intro l
+  fun_induction dedupByValue l with
+  | case1 => intro _; exact Pairwise.nil
+  | case2 x => intro _; simp
+  | case3 x y rest heq ih =>
+    intro h
+    apply ih
+    rw [pairwise_cons] at h ⊢
+    exact ⟨fun a ha => h.1 a (mem_cons_of_mem _ ha), (pairwise_cons.1 h.2).2⟩
+  | case4 x y rest hne ih =>
+    intro h
+    have h2 := (pairwise_cons.1 h).2
+    refine pairwise_cons.2 ⟨?_, ih h2⟩
+    intro a ha
+    have hay := dedup_sub _ a ha
+    have hxy : x.2 ≤ y.2 := (pairwise_cons.1 h).1 y (mem_cons_self ..)
+    rcases mem_cons.1 hay with rfl | har
+    · omega
+    · have := (pairwise_cons.1 h2).1 a har
+      omega
+
+theorem sortByValue_sorted (l : List (String × Int)) : (sortByValue l).Pairwise (fun a b => a.2 ≤ b.2) :=
+  isort_pairwise (lt := fun (a b : String × Int) => decide (a.2 ≤ b.2)) (le := fun a b => a.2 ≤ b.2)
+    (fun a b c h1 h2 => Int.le_trans h1 h2) (fun a b h => by simpa using h) (fun a b h => by simp at h; omega) l
+
+/-- the emitted `enum_values_by_number` lists every declared number exactly once, in ascending order -/
+theorem enumValues_strict (e : PEnum) : ((genEnumValues e).map (·.2)).Pairwise (· < ·) := by
+  rw [pairwise_map]
+  exact dedup_strict _ (sortByValue_sorted e.values)
+
+theorem enumValues_numbers (e : PEnum) (v : Int) :
+    v ∈ (genEnumValues e).map (·.2) ↔ v ∈ e.values.map (·.2) := by
+  unfold genEnumValues
+  rw [dedup_numbers]
+  exact ((isort_perm _ e.values).map (·.2)).mem_iff
+
+/-- C13 + C14 (i) for generated enum descriptors: for EVERY 32-bit key (negative, sparse, INT32_MIN / INT32_MAX
+    included), the lookup over the emitted `value_ranges` returns position k iff the k-th emitted value has that
+    number, and a number is emitted iff it was declared (aliases share one entry). -/
+theorem enum_by_number (e : PEnum) (v : Int) (k : Nat) :
+    rangeLookup (genEnumRanges e) v = some k ↔ ((genEnumValues e).map (·.2))[k]? = some v := by
+  unfold genEnumRanges
+  exact Pbc.Lemmas.Ranges.rangeLookup_mkRanges _ (enumValues_strict e) v k
+
+theorem enum_by_number_none (e : PEnum) (v : Int) (hv : v ∉ e.values.map (·.2)) :
+    rangeLookup (genEnumRanges e) v = none := by
+  unfold genEnumRanges
+  exact Pbc.Lemmas.Ranges.rangeLookup_mkRanges_none _ (enumValues_strict e) v
+    (fun h => hv ((enumValues_numbers e v).1 h))
+
+/-! ### enums: the first declared name wins; lookups by name -/
+
+theorem sortByValue_filter (l : List (String × Int)) (v : Int) :
+    (sortByValue l).filter (fun p => decide (p.2 = v)) = l.filter (fun p => decide (p.2 = v)) := by
+  induction l with
+  | nil => rfl
+  | cons x xs ih =>
+    show (insertBy _ x (sortByValue xs)).filter _ = _
+    rw [insertBy_filter_key (key := fun (p : String × Int) => p.2) (lek := fun a b => a ≤ b)
+      (lt := fun (a b : String × Int) => decide (a.2 ≤ b.2))
+      (by intro a b; simp) (fun k => Int.le_refl k) x v (sortByValue xs) (sortByValue_sorted xs)
+      (by intro a _ h1 h2; exact h1 (by omega))]
+    rw [ih, filter_cons]
+    by_cases hx : x.2 = v <;> simp [hx]
+
+theorem dedup_first : ∀ (l : List (String × Int)), l.Pairwise (fun a b => a.2 ≤ b.2) → ∀ n v,
+    (n, v) ∈ dedupByValue l → (l.filter (fun p => decide (p.2 = v))).head? = some (n, v) := by
+  intro l
+  fun_induction dedupByValue l with
+  | case1 => intro _ n v h; simp at h
+  | case2 x =>
+    intro _ n v h
+    have : (n, v) = x := by simpa using h
+    subst this; simp
+  | case3 x y rest heq ih =>
+    intro hs n v h
+    have hs' : (x :: rest).Pairwise (fun a b => a.2 ≤ b.2) := by
+      rw [pairwise_cons] at hs ⊢
+      exact ⟨fun a ha => hs.1 a (mem_cons_of_mem _ ha), (pairwise_cons.1 hs.2).2⟩
+    have := ih hs' n v h
+    by_cases hx : x.2 = v
+    · simp [filter_cons, hx] at this ⊢; exact this
+    · have hy : y.2 ≠ v := fun hc => hx (heq.trans hc)
+      simp [filter_cons, hx, hy] at this ⊢; exact this
+  | case4 x y rest hne ih =>
+    intro hs n v h
+    have h2 := (pairwise_cons.1 hs).2
+    rcases mem_cons.1 h with hxe | h'
+    · subst hxe; simp [filter_cons]
+    · have := ih h2 n v h'
+      have hmem := dedup_sub _ _ h'
+      have hxy : x.2 ≤ y.2 := (pairwise_cons.1 hs).1 y (mem_cons_self ..)
+      have hyv : y.2 ≤ v := by
+        rcases mem_cons.1 hmem with he | hr
+        · have : y.2 = v := by rw [← he]
+          omega
+        · exact (pairwise_cons.1 h2).1 _ hr
+      have hx : x.2 ≠ v := by omega
+      rw [filter_cons]
+      simp only [hx, decide_false, Bool.false_eq_true, if_false]
+      exact this
+
+/-- each emitted enum value carries the FIRST name declared for its number (aliases keep only their by-name entry) -/
+theorem enum_first_name (e : PEnum) (n : String) (v : Int) (h : (n, v) ∈ genEnumValues e) :
+    (e.values.filter (fun p => decide (p.2 = v))).head? = some (n, v) := by
+  have := dedup_first _ (sortByValue_sorted e.values) n v h
+  rwa [sortByValue_filter] at this
+
+/-- a declared number sits in the emitted table at `indexOfValue` -/
+theorem indexOfValue_spec (e : PEnum) (nv : String × Int) (h : nv ∈ e.values) :
+    ((genEnumValues e).map (·.2))[indexOfValue (genEnumValues e) nv.2]? = some nv.2 := by
+  have hm : nv.2 ∈ (genEnumValues e).map (·.2) := (enumValues_numbers e nv.2).2 (mem_map_of_mem h)
+  unfold indexOfValue
+  rw [getElem?_eq_getElem (idxOf_lt_length_of_mem hm)]
+  simp
+
+/-- C13 + C14 (ii) for generated enum descriptors: for EVERY string, the by-name search over the emitted
+    `enum_values_by_name` succeeds iff the string is a declared value name (aliases included), and the index it returns
+    is the table position of that name's number -/
+theorem enum_by_name (e : PEnum) (hd : (e.values.map (fun nv => bytesOfString nv.1)).Nodup) (key : List Nat) (idx : Nat) :
+    nameLookup (genEnumByName e) key = some idx ↔
+      ∃ nv ∈ e.values, bytesOfString nv.1 = key ∧ idx = indexOfValue (genEnumValues e) nv.2 := by
+  unfold genEnumByName
+  have hsrc : ((e.values.map (fun (x : String × Int) => (bytesOfString x.1, indexOfValue (genEnumValues e) x.2))).map (·.1)).Nodup := by
+    rw [map_map]; exact hd
+  rw [nameLookup_sortByName _ hsrc, mem_map]
+  constructor
+  · rintro ⟨nv, hm, he⟩
+    simp only [Prod.mk.injEq] at he
+    exact ⟨nv, hm, he.1, he.2.symm⟩
+  · rintro ⟨nv, hm, h1, h2⟩
+    exact ⟨nv, hm, by simp [h1, h2]⟩
 
 end Pbc.Props.C13
